@@ -3,10 +3,9 @@ use cbor_event::de::Deserializer;
 use cbor_event::se::Serializer;
 use cbor_event::Serialize;
 use crate::{BootstrapWitnesses, CBORReadLen, DeserializeError, DeserializeFailure, Key, Language, NativeScripts, PlutusList, PlutusScripts, Redeemers, TransactionWitnessSet, Vkeywitnesses};
-use crate::protocol_types::{CBORSpecial, CBORType, Deserialize, opt64, TransactionWitnessSetRaw};
+use crate::protocol_types::{CBORSpecial, CBORType, Deserialize, TransactionWitnessSetRaw};
 use crate::serialization::utils::{deserilized_with_orig_bytes, merge_option_plutus_list};
 use crate::traits::NoneOrEmpty;
-use crate::utils::opt64_non_empty;
 
 impl cbor_event::se::Serialize for TransactionWitnessSet {
     fn serialize<'a, W: Write + Sized>(&self, serializer: &'a mut Serializer<W>) -> cbor_event::Result<&'a mut Serializer<W>> {
@@ -202,27 +201,46 @@ pub(super) fn serialize<'se, W: Write>(
     raw_parts: Option<&TransactionWitnessSetRaw>,
     serializer: &'se mut Serializer<W>,
 ) -> cbor_event::Result<&'se mut Serializer<W>> {
-    let mut has_plutus_v1 = false;
-    let mut has_plutus_v2 = false;
-    let mut has_plutus_v3 = false;
-    let plutus_added_length = match &wit_set.plutus_scripts {
-        Some(scripts) => {
-            has_plutus_v1 = scripts.has_version(&Language::new_plutus_v1());
-            has_plutus_v2 = scripts.has_version(&Language::new_plutus_v2());
-            has_plutus_v3 = scripts.has_version(&Language::new_plutus_v3());
-            (has_plutus_v1 as u64) + (has_plutus_v2 as u64) + (has_plutus_v3 as u64)
-        },
-        _ => 0,
+    let (has_plutus_v1, has_plutus_v2, has_plutus_v3) = match &wit_set.plutus_scripts {
+        Some(scripts) => (
+            scripts.has_version(&Language::new_plutus_v1()),
+            scripts.has_version(&Language::new_plutus_v2()),
+            scripts.has_version(&Language::new_plutus_v3()),
+        ),
+        _ => (false, false, false),
     };
+    // A field is written either from its preserved raw bytes or, when it is not empty, from the typed value.
+    // The map length must count exactly the fields that are written below.
+    let has_raw = |part: fn(&TransactionWitnessSetRaw) -> &Option<Vec<u8>>| -> bool {
+        raw_parts.map(|x| part(x).is_some()).unwrap_or(false)
+    };
+    let write_vkeys = wit_set.vkeys.is_some()
+        && (has_raw(|x| &x.vkeys) || !wit_set.vkeys.is_none_or_empty());
+    let write_native_scripts = wit_set.native_scripts.is_some()
+        && (has_raw(|x| &x.native_scripts) || !wit_set.native_scripts.is_none_or_empty());
+    let write_bootstraps = wit_set.bootstraps.is_some()
+        && (has_raw(|x| &x.bootstraps) || !wit_set.bootstraps.is_none_or_empty());
+    let write_plutus_data = wit_set.plutus_data.is_some()
+        && (has_raw(|x| &x.plutus_data) || !wit_set.plutus_data.is_none_or_empty());
+    let write_redeemers = wit_set.redeemers.is_some()
+        && (has_raw(|x| &x.redeemers) || !wit_set.redeemers.is_none_or_empty());
+    let write_plutus_v1 = wit_set.plutus_scripts.is_some()
+        && (has_raw(|x| &x.plutus_scripts_v1) || has_plutus_v1);
+    let write_plutus_v2 = wit_set.plutus_scripts.is_some()
+        && (has_raw(|x| &x.plutus_scripts_v2) || has_plutus_v2);
+    let write_plutus_v3 = wit_set.plutus_scripts.is_some()
+        && (has_raw(|x| &x.plutus_scripts_v3) || has_plutus_v3);
     serializer.write_map(cbor_event::Len::Len(
-        opt64(&wit_set.vkeys)
-            + opt64_non_empty(&wit_set.native_scripts)
-            + opt64_non_empty(&wit_set.bootstraps)
-            + opt64_non_empty(&wit_set.plutus_data)
-            + opt64_non_empty(&wit_set.redeemers)
-            + plutus_added_length,
+        write_vkeys as u64
+            + write_native_scripts as u64
+            + write_bootstraps as u64
+            + write_plutus_data as u64
+            + write_redeemers as u64
+            + write_plutus_v1 as u64
+            + write_plutus_v2 as u64
+            + write_plutus_v3 as u64,
     ))?;
-    if let Some(field) = &wit_set.vkeys {
+    if let (true, Some(field)) = (write_vkeys, &wit_set.vkeys) {
         if let Some(raw_vkeys) = raw_parts.map(|x| x.vkeys.as_ref()).flatten() {
             serializer.write_unsigned_integer(0)?;
             serializer.write_raw_bytes(raw_vkeys)?;
@@ -253,7 +271,7 @@ pub(super) fn serialize<'se, W: Write>(
 
     //no need deduplication here because transaction witness set already has deduplicated plutus scripts
     if let Some(plutus_scripts) = &wit_set.plutus_scripts {
-        if has_plutus_v1 {
+        if write_plutus_v1 {
             if let Some(raw) = raw_parts.as_ref().map(|x| x.plutus_scripts_v1.as_ref()).flatten() {
                 serializer.write_unsigned_integer(3)?;
                 serializer.write_raw_bytes(raw)?;
@@ -262,7 +280,7 @@ pub(super) fn serialize<'se, W: Write>(
                 plutus_scripts.serialize_as_set_by_version(false, &Language::new_plutus_v1(), serializer)?;
             }
         }
-        if has_plutus_v2 {
+        if write_plutus_v2 {
             if let Some(raw) = raw_parts.as_ref().map(|x| x.plutus_scripts_v2.as_ref()).flatten() {
                 serializer.write_unsigned_integer(6)?;
                 serializer.write_raw_bytes(raw)?;
@@ -271,7 +289,7 @@ pub(super) fn serialize<'se, W: Write>(
                 plutus_scripts.serialize_as_set_by_version(false, &Language::new_plutus_v2(), serializer)?;
             }
         }
-        if has_plutus_v3 {
+        if write_plutus_v3 {
             if let Some(raw) = raw_parts.as_ref().map(|x| x.plutus_scripts_v3.as_ref()).flatten() {
                 serializer.write_unsigned_integer(7)?;
                 serializer.write_raw_bytes(raw)?;
